@@ -491,3 +491,91 @@ def guard_list_to_coq(fn, coq_name, params, start_after=None):
         term = '(if %s then Some (%d)%%Z else\n   %s)' % (c, k, term)
     binders = ' '.join('(%s : %s)' % (coq_ident(p), COQ_TYPES[ty]) for p, ty in params)
     return 'Definition %s %s : option Z :=\n  %s.\n' % (coq_name, binders, term), len(guards)
+
+
+# ---------------------------------------------------------------------------
+# Net-shape hook (appended for C02; generic, changes no existing behaviour).
+#
+# Tables such as FastSimulation._no_mask_bitwidth are lambdas over a LogicNet
+# that only look at its *shape*: `len(net.args[i])`, `net.args[i].bitwidth`,
+# `len(net.dests[0])`, `len(net.args)`, `len(net.op_param)` and
+# `sum(len(a) for a in net.args)`.  `net_shape_hook` turns those attribute paths
+# into Gallina parameters: the list of argument widths, the destination width
+# and the length of op_param.  Anything else rooted at the net falls through to
+# ExprTr, which fails closed.
+
+def _const_index(sub):
+    idx = sub.slice
+    if isinstance(idx, ast.Constant) and isinstance(idx.value, int) and not isinstance(idx.value, bool) \
+            and idx.value >= 0:
+        return idx.value
+    return None
+
+
+def net_shape_hook(net='net', argw='v_argw', destw='v_destw', nparam='v_nparam'):
+    def is_net_attr(n, attr):
+        return (isinstance(n, ast.Attribute) and n.attr == attr
+                and isinstance(n.value, ast.Name) and n.value.id == net)
+
+    def wire_width(n):
+        """net.args[i] / net.dests[0] -> Gallina text of its bitwidth, else None"""
+        if isinstance(n, ast.Subscript):
+            i = _const_index(n)
+            if i is None:
+                return None
+            if is_net_attr(n.value, 'args'):
+                return '(nth %d %s 0)' % (i, argw)
+            if is_net_attr(n.value, 'dests') and i == 0:
+                return destw
+        return None
+
+    def hook(tr, n):
+        if isinstance(n, ast.Call) and isinstance(n.func, ast.Name) and not n.keywords and len(n.args) == 1:
+            a = n.args[0]
+            if n.func.id == 'len':
+                w = wire_width(a)
+                if w is not None:
+                    return (w, 'Z')
+                if is_net_attr(a, 'args'):
+                    return ('(Z.of_nat (length %s))' % argw, 'Z')
+                if is_net_attr(a, 'op_param'):
+                    return (nparam, 'Z')
+            if n.func.id == 'sum' and isinstance(a, ast.GeneratorExp) and len(a.generators) == 1:
+                g = a.generators[0]
+                if (isinstance(g.target, ast.Name) and not g.ifs and not g.is_async
+                        and is_net_attr(g.iter, 'args')):
+                    v = g.target.id
+                    e = a.elt
+                    is_len = (isinstance(e, ast.Call) and isinstance(e.func, ast.Name) and e.func.id == 'len'
+                              and len(e.args) == 1 and not e.keywords
+                              and isinstance(e.args[0], ast.Name) and e.args[0].id == v)
+                    is_bw = (isinstance(e, ast.Attribute) and e.attr == 'bitwidth'
+                             and isinstance(e.value, ast.Name) and e.value.id == v)
+                    if is_len or is_bw:
+                        return ('(fold_right Z.add 0 %s)' % argw, 'Z')
+        if isinstance(n, ast.Attribute) and n.attr == 'bitwidth':
+            w = wire_width(n.value)
+            if w is not None:
+                return (w, 'Z')
+        return None
+    return hook
+
+
+def shape_table_to_coq(name, rows, header, params='(v_argw : list Z) (v_nparam : Z)'):
+    """rows from lambda_table over a one-parameter (`net`) lambda table ->
+    `Definition name (o : op) params : option Z` (None for ops not in the table)."""
+    out = [header, 'Definition %s (o : op) %s : option Z :=' % (name, params), '  match o with']
+    seen = set()
+    for ch, args, body in rows:
+        if ch not in OPCHAR:
+            raise Untranslatable('unknown op char %r' % ch)
+        if ch in seen:
+            raise Untranslatable('duplicate op char %r' % ch)
+        if len(args) != 1:
+            raise Untranslatable('table entry %r must take exactly the net' % ch)
+        seen.add(ch)
+        out.append('  | %s => Some %s' % (OPCHAR[ch], body))
+    if seen != set(OPCHAR):
+        out.append('  | _ => None')
+    out.append('  end.')
+    return '\n'.join(out) + '\n'
